@@ -4,7 +4,8 @@
    term that tools/c2clite.py generated from /repo's uc.c (GenCFuncs.v) gives the value of the
    model; no checked load or store leaves its block, no signed operation overflows, no fuel runs out. *)
 From Coq Require Import List ZArith NArith Bool Lia.
-From NV Require Import Bytes UcDefs GenUcTables RenDefs ShapeDefs ShapeProps CLite CLiteProps GenCFuncs TrUc TrUcTab.
+From NV Require Import Bytes UcDefs GenUcTables RenDefs ShapeDefs ShapeProps CLite CLiteProps GenCFuncs CLiteTac.
+(* no other Tr file is imported: find_achar, can_join, uc_cshape and uc_cput call no other function of uc.c *)
 Import ListNotations.
 Local Open Scope Z_scope.
 Local Notation nthz := ShapeProps.nthz.     (* CLiteProps has an nthz for int arrays *)
@@ -512,14 +513,23 @@ Proof.
 Qed.
 
 (* the bytes of the model's encoding are bytes for c < 2^26 (in particular for every code point <= 0x10ffff) *)
+Lemma N_lor_lt_pow2 a b k : (0 < k)%N -> (a < 2 ^ k)%N -> (b < 2 ^ k)%N -> (N.lor a b < 2 ^ k)%N.
+Proof.
+  intros Hk Ha Hb. destruct (N.eq_dec (N.lor a b) 0) as [E|E]; [rewrite E; apply N.neq_0_lt_0, N.pow_nonzero; lia|].
+  apply N.log2_lt_pow2; [lia|]. rewrite N.log2_lor. apply N.max_lub_lt.
+  - destruct (N.eq_dec a 0) as [->|Na]; [cbn; lia|apply N.log2_lt_pow2; lia].
+  - destruct (N.eq_dec b 0) as [->|Nb]; [cbn; lia|apply N.log2_lt_pow2; lia].
+Qed.
+Lemma N_land_mask_lt a k : (N.land a (N.ones k) < 2 ^ k)%N.
+Proof. rewrite N.land_ones. apply N.mod_lt. apply N.pow_nonzero. lia. Qed.
 Lemma uc_cput_lt256 c : (c < 67108864)%N -> bytes_lt256 (uc_cput c).
 Proof.
   intro Hc. unfold uc_cput, bytes_lt256.
   assert (K : forall x, (N.lor 128 (N.land x 63) < 256)%N).
-  { intro x. apply (lor_lt_pow2 128 _ 8); [lia|reflexivity|].
-    eapply N.lt_trans; [apply (land_mask_lt x 6)|reflexivity]. }
+  { intro x. apply (N_lor_lt_pow2 128 _ 8); [lia|reflexivity|].
+    eapply N.lt_trans; [apply (N_land_mask_lt x 6)|reflexivity]. }
   assert (S : forall k0 sh, (k0 < 256)%N -> (c < 2 ^ sh * 256)%N -> (N.lor k0 (N.shiftr c sh) < 256)%N).
-  { intros k0 sh H0 H1. apply (lor_lt_pow2 k0 _ 8); [lia|exact H0|].
+  { intros k0 sh H0 H1. apply (N_lor_lt_pow2 k0 _ 8); [lia|exact H0|].
     rewrite N.shiftr_div_pow2. apply N.div_lt_upper_bound; [apply N.pow_nonzero; lia|exact H1]. }
   destruct (N.ltb_spec 65535 c); [repeat constructor; try apply K; apply S; [reflexivity|exact Hc]|].
   destruct (N.ltb_spec 2047 c); [repeat constructor; try apply K; apply S; [reflexivity|change (2 ^ 12 * 256)%N with 1048576%N; lia]|].
@@ -549,3 +559,22 @@ Proof.
   - intros k Hk. apply (load_put_outside m b blk o _ k Hm); lia.
   - intros b' p Hb. apply load_upd_other_block; [|exact Hb]. apply nth_error_Some. intro X. pose proof (eq_trans (eq_sym X) Hm) as Y. discriminate Y.
 Qed.
+
+(* ---- packaged statement cited by Properties_C18.v: the call, and what the index means in the model *)
+Theorem tr_find_achar_spec m c d fuel : globals_at m -> int_ok c -> (length achars < fuel)%nat ->
+  callf cprog fuel (S d) F_find_achar [VInt c] m
+  = Ok (match row_index c with Some i => VPtr G_achars (5 * Z.of_nat i) | None => VInt 0 end, m) /\
+  option_map (fun i => nth i achars arow0) (row_index c) = find_achar c /\
+  find_achar c = lookup_achar c /\
+  (forall i, row_index c = Some i -> (i < length achars)%nat /\ a_c (nth i achars arow0) = c).
+Proof.
+  intros Hg Hc Hf. split; [apply (tr_find_achar m c d fuel Hg Hc Hf)|].
+  split; [apply row_index_model|]. split; [apply find_achar_eq|]. intros i H. apply row_index_lt. exact H.
+Qed.
+
+Print Assumptions gb_achars_eq.
+Print Assumptions tr_find_achar_spec.
+Print Assumptions tr_can_join.
+Print Assumptions tr_uc_cshape.
+Print Assumptions tr_uc_cput.
+Print Assumptions tr_uc_cput_cells.
